@@ -2,7 +2,7 @@
 # every check must give the same instances and verdicts whatever the string-hash seed
 cd "$(dirname "$0")/.."
 rc=0
-for p in C02 C03 C04 C05 C06 C07 C08 C09 C10 C11 C12 C13 C14 C17 C18 C19 C20; do
+for p in C02 C03 C04 C05 C06 C07 C08 C09 C10 C11 C12 C13 C14 C16 C17 C18 C19 C20; do
   for s in 1 2 3; do PYTHONHASHSEED=$s VERIF_SELFTEST=1 VERIF_DUMP=/tmp/det.$p.$s ./check $p >/dev/null; done
   if cmp -s /tmp/det.$p.1 /tmp/det.$p.2 && cmp -s /tmp/det.$p.1 /tmp/det.$p.3; then echo "$p deterministic"; else echo "$p DIFFERS"; rc=1; fi
   rm -f /tmp/det.$p.*
